@@ -153,6 +153,14 @@ func runC01(c *Ctx) {
 				r.judgeProj(lg, og, "c01:get-after-"+path, ident, nil)
 				lh, oh := r.Head(bucket, key)
 				r.judgeProj(lh, oh, "c01:head-after-"+path, ident, nil)
+				// the statement itself: exactly the uploaded bytes, their count, and their MD5 as ETag
+				c.R.Evaluations++
+				wantG := fmt.Sprintf("obj %s %s ", drv.Hex(body), etagOf(body))
+				wantH := fmt.Sprintf("hobj %d %s ", len(body), etagOf(body))
+				if !strings.HasPrefix(og, wantG) || !strings.HasPrefix(oh, wantH) {
+					c.mismatch(Mismatch{Kind: "spec", Backend: kind, Case: append(append([]string{}, r.Lines...)), Finger: "c01:bytes-size-etag:" + path,
+						Impl: trunc(og, 200) + " | " + trunc(oh, 120), Spec: trunc(wantG, 200) + "… | " + wantH + "…"})
+				}
 				c.R.Evaluations++
 				if !sentSubset(md, og) || !sentSubset(md, oh) {
 					c.mismatch(Mismatch{Kind: "spec", Backend: kind, Case: append(append([]string{}, r.Lines...)), Finger: "c01:sent-metadata-not-returned",
